@@ -52,6 +52,10 @@ func (w *World) verifyLemma(l *Lemma) (res *FnResult) {
 		switch parts[1] {
 		case "int":
 			t = specIntType
+		case "bytes":
+			t = types.NewSlice(types.Typ[types.Uint8])
+		case "string":
+			t = types.Typ[types.String]
 		default:
 			n, err := parseSpec(parts[1])
 			if err != nil {
